@@ -222,6 +222,7 @@ def obligations(chk):
     literal_obligations(chk)
     composite_obligations(chk)
     frame_scan(chk)
+    none_member_obligations(chk)
 
 
 # ----------------------------------------------------------------------------- frame scan (same on every call)
@@ -286,3 +287,45 @@ def frame_scan(chk, modname=MA, skip=()):
                     bad = self_writes_in(s)
                     chk.add(Ob(f"{modname}.{node.name}.__call__", "writes-no-routine-state", "ast-scan", [],
                                z3.BoolVal(not bad), {"writes": bad}))
+
+
+# ----------------------------------------------------------------------------- the None member of an optional union
+def none_member_obligations(chk):
+    """The routine the marshal dispatch binds to NoneType (read from the `_HANDLERS` table) passes None through and rejects every
+    other value with ValueError - otherwise it 'accepts' whatever the other members of an Optional[...] rejected, and a value that
+    is not a member of Optional[Literal[...]] would be emitted instead of rejected."""
+    import ast
+    from pyvc.core import PyRaise
+    I = R.make_interp()
+    api = R.MA.replace(".routines", ".api")
+    cls = None
+    for st in I.src.toplevel(api):
+        tg = st.targets[0] if isinstance(st, ast.Assign) else getattr(st, "target", None)
+        if isinstance(st, (ast.Assign, ast.AnnAssign)) and isinstance(tg, ast.Name) and tg.id == "_HANDLERS" and isinstance(st.value, ast.Dict):
+            for k, v in zip(st.value.keys, st.value.values):
+                if ast.unparse(k) == "inspection.isnonetype":
+                    cls = ast.unparse(v).split(".")[-1]
+    func = f"{R.MA}.{cls}.__call__"
+    names = ["none-passes-through", "anything-else-is-rejected-with-ValueError"]
+    if cls is None:
+        for nm in names:
+            chk.add(Ob(f"{api}._HANDLERS[isnonetype]", nm, "ast", [], z3.BoolVal(False), {"note": "no isnonetype entry"}))
+        return
+
+    def mk(I, path):
+        val = path.fresh("val")
+        slf = rw.routine_self(I, R.MA, cls, {"t": SV(to_val(type(None))), "context": rw.Ctx(path.fresh("ctx")), "var": None})
+        return [slf, SV(val)], {}, {"val": val}
+    key = f"{api}._HANDLERS[isnonetype].__call__"
+    for pi, (path, out, obls, writes, cur) in enumerate(I.run_function(func, mk)):
+        pid, hy, val = f"p{pi}", path.hyps, cur["val"]
+        if out.kind == "ret":
+            chk.add(Ob(key, names[0], pid, hy + [val == VNone], to_val(out.value) == VNone, {"class": cls}))
+            chk.add(Ob(key, names[1], pid, hy, val == VNone, {"class": cls, "note": "a returning path must be the None path"}))
+        elif out.kind == "raise":
+            is_ve = isinstance(out.exc.exc_cls, type) and issubclass(out.exc.exc_cls, ValueError)
+            chk.add(Ob(key, names[0], pid, hy, val != VNone, {"class": cls}))
+            chk.add(Ob(key, names[1], pid, hy, z3.BoolVal(bool(is_ve)), {"class": cls, "exc": str(out.exc.exc_cls)}))
+        else:
+            for nm in names:
+                chk.add(Ob(key, nm, pid, hy, z3.BoolVal(False), {"engine": str(out.value)}))
